@@ -265,6 +265,10 @@ class Probe(object):
         return True
 
 
+def _raising_observer(_f):
+    raise UserErrorA("an observer's done-callback")
+
+
 class PScenario(object):
     def __init__(self, entry, ckind, a, b):
         self.entry, self.ckind, self.a, self.b = entry, ckind, a, b
@@ -274,6 +278,8 @@ class PScenario(object):
         e = Entry(ctx, self.entry)
         ctx.e = e
         ctx.p = Probe(e.f)
+        # somebody else's done-callback, registered first, raises: the others still run exactly once
+        e.f.add_done_callback(_raising_observer)
         ctx.p.add_cb("pre")
         return ctx
 
@@ -478,16 +484,24 @@ def run_reentrant(case, res):
                     p = Probe(e.f)
                     p.add_cb("pre")
                     box["p"] = p
-                    if outer == "cancel":
-                        p.cancel("outer")
-                    else:
-                        e.complete(outer)
-                    instr.advance(0.5)
-                    e.complete("value")
-                    instr.advance(0.5)
-                    p.add_cb("post")
+                    if inner == "cancel+add_cb":
+                        # ... and a done-callback of the future under test that tidies up its inputs
+                        e.f.add_done_callback(lambda _o: [s_.cancel() for s_ in e.ins])
+                    try:
+                        if outer == "cancel":
+                            p.cancel("outer")
+                        else:
+                            e.complete(outer)
+                        instr.advance(0.5)
+                        e.complete("value")
+                        instr.advance(0.5)
+                        p.add_cb("post")
+                    except instr.DeadlockBroken:
+                        pass  # recorded by the lock monitor, reported below
                     res.execs += 1
-                    check_common(res)
+                    check_common(res, deadlock_suffix="@reentrant/%s" % inner)
+                    if LM.deadlocks:
+                        continue
                     label = "reentrant/%s/%s/%s/%s" % (case["entry"], when, inner, outer)
                     if p.judge(res, label):
                         res.key(label)
